@@ -358,6 +358,16 @@ LoadsVerdict(b, hex, obs) ==
     ELSE IF obs.kind = "liberr" THEN (IF r.st = "strict" THEN "rejected-a-must-accept" ELSE "")
     ELSE IF Agrees(obs.d, r) THEN "" ELSE "reading-differs"
 
+\* the text of a value in a CSV cell written by the extraction tools (str() of the Python value)
+CellText(v) == CASE v.t = "s" -> v.v
+                 [] v.t = "i" -> v.v
+                 [] v.t = "dt" -> IsoText(v.v)
+                 [] OTHER -> <<>>
+\* the cells of one output row: the configured output columns that the record carries, empty cells omitted
+CsvCells(d, cols) ==
+    LET keep == SelectSeq(cols, LAMBDA k : k \in DOMAIN d /\ d[k].t \in {"s", "i", "dt"} /\ CellText(d[k]) # <<>>)
+    IN  FoldLeft(LAMBDA acc, k : Put(acc, k, V("s", CellText(d[k]))), EmptyD, keep)
+
 \* C16: a clear card number (longer than 10 characters) appears nowhere in a returned dictionary
 HasSub(hay, needle) == \E i \in 0..(Len(hay) - Len(needle)) : SubSeq(hay, i + 1, i + Len(needle)) = needle
 Leaks(od, secret) == Len(secret) > 10 /\ \E k \in DOMAIN od : od[k].t \in {"s", "b", "i"} /\ HasSub(od[k].v, secret)
